@@ -15,7 +15,8 @@ Definition peer_claims (k : N) (path : N) : sigm :=
 Definition cf_sig : cfg := {| c_dest := DWell; c_pi := 0; c_pm := Some 0 |}.
 
 (* the statement at full strength: for every bus history and every schedule *)
-Definition full_statement : Prop :=
+(* C32_full_statement *)
+Definition C32_full_statement : Prop :=
   forall cf h sched, bus_history cf h = true ->
     let w := run cf h sched in
     (exists rest, spec_yield cf (w_start w) h = yielded w ++ rest) /\
@@ -54,7 +55,7 @@ Lemma dbus_iface_forgery_refuted :
   w_lost w = false /\ yielded w = [6] /\ spec_yield cf_dbus (w_start w) h_forge = [5].
 Proof. vm_compute. repeat split; reflexivity. Qed.
 
-Lemma full_statement_refuted : ~ full_statement.
+Lemma full_statement_refuted : ~ C32_full_statement.
 Proof.
   intro H. specialize (H cf_sig h_release sched_release).
   destruct release_buffered_refuted as (Hb & _ & _ & Hy & Hs).
